@@ -93,7 +93,7 @@ func (g *gen) container(ind string, depth int, ids *[]string, prefix string) {
 		if g.tp.Chance(1, 6, "gen.eclass") {
 			fmt.Fprintf(&g.sb, " {\n%s  class: [c%d; c%d; c%d]\n%s}", ind, 1+g.tp.Draw(3, "gen.class.which"), 1+g.tp.Draw(3, "gen.class.which"), 1+g.tp.Draw(3, "gen.class.which"), ind)
 		} else if g.tp.Chance(1, 4, "gen.estyle") {
-			heads := []string{"triangle", "arrow", "diamond", "circle", "box", "cross", "cf-one", "cf-one-required", "cf-many", "cf-many-required", "unfilled-triangle"}
+			heads := []string{"triangle", "arrow", "diamond", "circle", "box", "cross", "cf-one", "cf-one-required", "cf-many", "cf-many-required"}
 			head := func() string {
 				h := heads[g.tp.Draw(len(heads), "gen.head")]
 				f := ""
@@ -324,7 +324,7 @@ func (g *gen) RenderFeatures() {
 	}
 	if tp.Chance(1, 2, "rf.arrowheads") {
 		// every arrowhead shape once, filled at one end and unfilled at the other
-		heads := []string{"triangle", "arrow", "diamond", "circle", "box", "cross", "cf-one", "cf-one-required", "cf-many", "cf-many-required", "unfilled-triangle"}
+		heads := []string{"triangle", "arrow", "diamond", "circle", "box", "cross", "cf-one", "cf-one-required", "cf-many", "cf-many-required"}
 		flip := tp.Chance(1, 2, "rf.arrowheads.flip")
 		for i, h := range heads {
 			fmt.Fprintf(&g.sb, "ah%d <-> ah%d: {\n  source-arrowhead: {shape: %s; style.filled: %v}\n  target-arrowhead: %d {shape: %s; style.filled: %v}\n}\n", i, i+1, h, flip, i, h, !flip)
